@@ -64,5 +64,9 @@ Check ==
           ELSE /\ (far = {} \/ PrintT(<<"EDGE", i, "NEAR", far>>))
                /\ (uncovered = {} \/ PrintT(<<"EDGE", i, "COVER", uncovered>>))
                /\ (nonmono = {} \/ PrintT(<<"EDGE", i, "MONO", nonmono>>))
-               /\ (quant \/ Chain(ExpEdges(e.ops, t, e.den), e.edges) \/ PrintT(<<"EDGE", i, "CHAIN", Len(e.edges)>>))
+               \* (zero-length line edges carry nothing and are dropped by add_edge anyway: they are left out on both
+               \* sides, so that only a difference that can matter is escalated)
+               /\ (quant \/ Chain(SelectSeq(ExpEdges(e.ops, t, e.den), LAMBDA x : x[3] \/ x[1] # x[2]),
+                                  SelectSeq(e.edges, LAMBDA g : g[5] = 1 \/ <<g[1], g[2]>> # <<g[3], g[4]>>))
+                         \/ PrintT(<<"EDGE", i, "CHAIN", Len(e.edges)>>))
 =============================================================================
